@@ -1,6 +1,7 @@
 """Runs contracts over the real source and discharges the obligations."""
 from __future__ import annotations
 
+import os
 import time
 import traceback
 from typing import List
@@ -81,7 +82,7 @@ def model_summary(model, ob: Obligation, limit=40):
     return out
 
 
-def run_contract(contract, src: SourceIndex, mode: str, quick=True):
+def run_contract(contract, src: SourceIndex, mode: str, quick=True, keep_models=False):
     """returns (results, info) for one function under one mode."""
     qual = contract.qual
     fdef = src.get(qual)
@@ -105,13 +106,41 @@ def run_contract(contract, src: SourceIndex, mode: str, quick=True):
     info['paths'] = eng.n_paths
     info['notes'] = sorted(set(eng.notes))
     results = []
-    # merge obligations with the same name (one logical obligation, several paths): all must hold
-    for ob in eng.obligations:
-        status, dt, model, solver = solve(ob)
-        backend = 'none' if status == 'unknown' else 'z3-5.1-api'
-        results.append({'name': ob.name, 'status': status, 'time_s': round(dt, 4), 'backend': backend,
-                        'kind': ob.kind, 'path': ob.meta.get('path'), 'line': ob.meta.get('line'),
-                        'model': model_summary(model, ob), 'size': len(ob.pc) + len(ob.hyp),
-                        '_model': model, '_ob': ob})
-    info['solve_s'] = round(time.time() - t0 - info['vcgen_s'], 3)
+    global _OBS, _CONTRACT
+    _OBS, _CONTRACT = eng.obligations, contract
+    inner = int(os.environ.get('EQLVC_INNER_JOBS', '6'))
+    if keep_models or inner <= 1 or len(_OBS) < 24:
+        for i in range(len(_OBS)):
+            results.append(_solve_index(i, keep_models))
+    else:
+        # the obligations live in this process' memory; forked workers solve them by index (z3 terms are not
+        # picklable and the SMT-LIB printer does not round-trip `(_ map ite)`)
+        import multiprocessing as mp
+        with mp.get_context('fork').Pool(inner) as pool:
+            results = pool.map(_solve_index, range(len(_OBS)), chunksize=4)
+    info['solve_s'] = round(sum(r['time_s'] for r in results), 3)
+    info['solve_wall_s'] = round(time.time() - t0 - info['vcgen_s'], 3)
     return results, info
+
+
+_OBS = []
+_CONTRACT = None
+
+
+def _solve_index(i, keep_models=False):
+    ob = _OBS[i]
+    status, dt, model, solver = solve(ob)
+    backend = 'none' if status == 'unknown' else 'z3-5.1-api'
+    sig = None
+    if status == 'failed' and model is not None and hasattr(_CONTRACT, 'signature'):
+        try:
+            sig = _CONTRACT.signature(ob, model)
+        except Exception as e:  # noqa
+            sig = {'signature-error': repr(e)}
+    r = {'name': ob.name, 'status': status, 'time_s': round(dt, 4), 'backend': backend,
+         'kind': ob.kind, 'path': ob.meta.get('path'), 'line': ob.meta.get('line'),
+         'model': model_summary(model, ob), 'size': len(ob.pc) + len(ob.hyp), 'signature': sig}
+    if keep_models:
+        r['_model'] = model
+        r['_ob'] = ob
+    return r
